@@ -59,9 +59,10 @@ let parse_dump (s : string) : tree list =
       if ty = "tok" then begin
         skip (); let k = atom () in skip (); let r = atom () in skip (); let a = atom () in
         skip (); let p = atom () in skip (); let e = atom () in skip ();
+        let sep = if !i < n && s.[!i] = 'B' then (let a = atom () in skip (); a = "B1") else false in
         if !i < n && s.[!i] = ')' then incr i else Stdlib.raise (Bad_dump "tok )");
         TTok (bytes_of_string (string_of_hex k), bytes_of_string (string_of_hex r), bytes_of_string (string_of_hex a),
-              z_of_int (posnum p), z_of_int (posnum e))
+              z_of_int (posnum p), z_of_int (posnum e), sep)
       end else begin
         let fs = ref [] in
         skip ();
@@ -162,6 +163,59 @@ let tree_walk out m o many =
         else List.iter (fun r -> emit (walk visit visit_many field index (to_rose Models.schema r) "$" (0, []))) roots;
         Printf.fprintf out "%s %s => %s\n" entry hex (Buffer.contents b))
 
+(* ---------- printer: SQL() of every node by the extracted interpreter on the regenerated programs ---------- *)
+let isprint_table : (int * int) array ref = ref [||]
+let load_isprint path =
+  let ic = open_in path in
+  let l = ref [] in
+  (try while true do
+       let line = input_line ic in
+       match String.split_on_char ' ' line with
+       | [a; b] -> l := (int_of_string a, int_of_string b) :: !l
+       | _ -> ()
+     done with End_of_file -> ());
+  close_in ic;
+  isprint_table := Array.of_list (List.rev !l)
+let rec int_of_posn = function XH -> 1 | XO p -> 2 * int_of_posn p | XI p -> 2 * int_of_posn p + 1
+let is_print_n (r : n) : bool =
+  let r = match r with N0 -> 0 | Npos p -> int_of_posn p in
+  let t = !isprint_table in
+  let lo = ref 0 and hi = ref (Array.length t - 1) and found = ref false in
+  while not !found && !lo <= !hi do
+    let mid = (!lo + !hi) / 2 in
+    let (a, b) = t.(mid) in
+    if r < a then hi := mid - 1 else if r > b then lo := mid + 1 else found := true
+  done; !found
+
+let tree_sql out =
+  each_case (fun entry hex roots ->
+      match roots with
+      | None -> Printf.fprintf out "%s %s => PANIC\n" entry hex
+      | Some roots ->
+        let b = Buffer.create 256 in
+        (* info is computed once per root; every node's SQL is read off the annotated tree by re-running on the subtree *)
+        let rec go (t : tree) =
+          match t with
+          | TNode (_, fs) ->
+            let s = sql is_print_n Models.schema Models.sql_prog Models.prec_table t in
+            Buffer.add_string b (ty_of t); Buffer.add_char b ':';
+            Buffer.add_string b (match s with None -> "X" | Some v -> hex_of_string (string_of_bytes v));
+            Buffer.add_char b ' ';
+            List.iter go fs
+          | TList l -> List.iter go l
+          | _ -> () in
+        List.iter go roots;
+        Printf.fprintf out "%s %s => %s\n" entry hex (Buffer.contents b))
+
+(* tree-wt: is every returned tree well typed against the regenerated schema (field count, kinds, interface conformance)? *)
+let tree_wt out =
+  each_case (fun entry hex roots ->
+      match roots with
+      | None -> Printf.fprintf out "%s %s => PANIC\n" entry hex
+      | Some roots ->
+        let bad = List.filter (fun r -> match r with TNode _ -> not (wt Models.schema Models.ifaces r) | _ -> false) roots in
+        Printf.fprintf out "%s %s => %s\n" entry hex (if bad = [] then "wt" else "ILL-TYPED " ^ String.concat "," (List.map ty_of bad)))
+
 (* gen-check: the per-run obligations evaluated outside the kernel, with diagnostics (which node types fail) *)
 let gen_check out =
   let names l = String.concat "," (List.map string_of_coq l) in
@@ -170,7 +224,15 @@ let gen_check out =
     (names (pos_table_failures Models.schema Models.pos_spec Models.pos_impl))
     (List.length Models.schema) (List.length Models.pos_spec) (List.length Models.pos_impl);
   Printf.fprintf out "walk_table_ok %b failing=[%s] cases=%d\n" (walk_table_ok Models.schema Models.walk_impl)
-    (names (walk_table_failures Models.schema Models.walk_impl)) (List.length Models.walk_impl)
+    (names (walk_table_failures Models.schema Models.walk_impl)) (List.length Models.walk_impl);
+  Printf.fprintf out "printer_ok %b failing=[%s] prec_missing=[%s] programs=%d\n"
+    (printer_ok Models.schema Models.ifaces Models.sql_prog Models.prec_table)
+    (names (printer_failures Models.schema Models.sql_prog)) (names (prec_missing Models.ifaces Models.prec_table)) (List.length Models.sql_prog);
+  let unread = unread_fields Models.schema Models.sql_prog in
+  Printf.fprintf out "unread_fields %b [%s]\n" (unread = [])
+    (String.concat "," (List.map (fun (t, f) -> string_of_coq t ^ "." ^ string_of_coq f) unread));
+  let bs = bad_separators Models.sql_prog in
+  Printf.fprintf out "separators_ok %b [%s]\n" (bs = []) (names bs)
 
 let run (args : string list) : bool =
   let out = stdout in
@@ -178,5 +240,7 @@ let run (args : string list) : bool =
    | ["gen-check"] -> gen_check out; true
    | ["tree-pe"; which] -> tree_pe out which; true
    | ["tree-walk"; m; o] -> tree_walk out (int_of_string m) (int_of_string o) false; true
+   | ["tree-sql"; tbl] -> load_isprint tbl; tree_sql out; true
+   | ["tree-wt"] -> tree_wt out; true
    | ["tree-walkmany"] -> tree_walk out 0 0 true; true
    | _ -> false)
